@@ -147,7 +147,7 @@ def run(tier, seed):
     modes = [m for m in K.MODES if m != "sql"]
     outs, _ = C.parse_many([("CREATE TABLE t1 (a int, b varchar(10));", {}, {"output_mode": m}) for m in K.MODES])
     baseline = {m: set(o[1][0]) | {"constraints", "table_properties"} for m, o in zip(K.MODES, outs)}
-    tasks = [(K.render(b), {}, {"output_mode": b["mode"]}) for b in behs]
+    tasks = [(K.render(b, c11.table_of(b)[0]), {}, {"output_mode": b["mode"]}) for b in behs]
     outs, _ = C.parse_many(tasks)
     nplace = 0
     for b, tk, o in zip(behs, tasks, outs):
